@@ -37,11 +37,19 @@
                         header sections, same curves, same data, NaN/NULL positions
                         included; the trace flag is o_engine_numpy && o_null_strict, i.e.
                         with the default options the numpy path really produced the data;
-     C02_read_engines_agree  the same, stated for two option records.
+     C02_read_engines_agree  the same, stated for two option records;
+     C02_read_agree     the whole LASFile.read (Model/Read.v read): for two option records
+                        that differ at most in the engine, if the first pass over the header
+                        sections ends with WRAP NO and DLM SPACE and every data section is
+                        in the domain (dom2_section: some c >= 1), both reads succeed and
+                        return the same ~Version, ~Well, ~Curves, ~Parameter, ~Other and
+                        custom sections and the same data, wherever ~A sits relative to
+                        the other sections; when there is a data section the trace flag of
+                        the numpy read says numpy (no silent fallback).
    Not proved here (covered by the correspondence runs of the harness): that body_lines
-   delimits exactly the lines of the section (line-number bookkeeping of find_sections,
-   skip_header / max_rows — Model/Sections.v, shared with C05), and the whole-file
-   composition `read` over several sections.
+   delimits exactly the lines of the section in the implementation (line-number bookkeeping
+   of find_sections and skip_header / max_rows — Model/Sections.v, shared with C05); the
+   hypotheses of C02_read_agree are stated on the first-pass state rather than on the text.
    Oracle / trust assumptions: genfromtxt behaves as Model/DataRead.v genfromtxt_rows /
    numpy_engine says; fhex (float(tok) succeeds, and to which double); fstr is irrelevant
    on the domain (no text column). *)
@@ -121,6 +129,23 @@ Theorem C02_read_engines_agree : forall fhex fstr numeq o1 o2 ls ps p l c,
     l_engine_numpy l2 = (o_engine_numpy o2 && o_null_strict o2).
 Proof. exact read_one_data_engines_agree. Qed.
 
+Theorem C02_read_agree : forall fhex fstr numeq o1 o2 text ps,
+  o_ignore_header_errors o1 = o_ignore_header_errors o2 -> o_mcase o1 = o_mcase o2 ->
+  o_null_strict o1 = o_null_strict o2 -> o_ignore_data o1 = o_ignore_data o2 ->
+  first_pass o1 (lines_keep text) ps_initial (find_sections (lines_keep text)) = inl ps ->
+  dlm_of (p_dlm ps) = Some DSpace ->
+  hval_is_str (p_wrapped ps) (s2l "YES") = false ->
+  wrap_declared (p_las ps) = false ->
+  Forall (dom2_section fhex (lines_keep text)) (match p_data ps with [] => p_las3data ps | x => x end) ->
+  exists l1 l2, read fhex fstr numeq o1 text = ROk l1 /\ read fhex fstr numeq o2 text = ROk l2 /\
+    (l_version l1 = l_version l2 /\ l_well l1 = l_well l2 /\ l_curves l1 = l_curves l2 /\
+     l_params l1 = l_params l2 /\ l_other l1 = l_other l2 /\ l_custom l1 = l_custom l2 /\
+     l_data l1 = l_data l2) /\
+    (o_ignore_data o1 = false -> (match p_data ps with [] => p_las3data ps | x => x end) <> [] ->
+     l_engine_numpy l1 = (o_engine_numpy o1 && o_null_strict o1) /\
+     l_engine_numpy l2 = (o_engine_numpy o2 && o_null_strict o2)).
+Proof. exact read_engines_agree. Qed.
+
 (* ---- non-vacuity: a concrete body satisfying every hypothesis -------------------------- *)
 (* example float() oracle: decimal literals (the value is irrelevant here) *)
 Definition ex_fhex (t : list N) : option (list N) :=
@@ -171,6 +196,50 @@ Example C02_ex_single : (* one row, one column *)
   normal_engine ex_fhex ex_fstr DSpace default_subs 1 [s2l "5"] = DOk [[CNum (s2l "5")]].
 Proof. repeat split; vm_compute; reflexivity. Qed.
 
+(* a whole file: ~A in the middle, followed by ~P; blank and comment lines inside ~A *)
+Definition ex_text : list N := s2l
+"~Version
+ VERS. 2.0 : v
+ WRAP.  NO : w
+~Well
+ NULL. -999.25 : null
+~Curve
+ DEPT.M : depth
+ A.V    : a
+~ASCII
+ 1.0   2.0
+# c
+
+ 3.0 -999.25
+~Params
+ X. 1 : x
+".
+Definition ex_numpy : ropts := mkropts false CaseUpper true true false.
+Definition ex_normal : ropts := mkropts false CaseUpper false true false.
+Definition ex_numeq (a b : list N) : bool := str_eqb a b.
+Example C02_ex_read_hyps :
+  exists ps,
+    first_pass ex_numpy (lines_keep ex_text) ps_initial (find_sections (lines_keep ex_text)) = inl ps /\
+    dlm_of (p_dlm ps) = Some DSpace /\
+    hval_is_str (p_wrapped ps) (s2l "YES") = false /\
+    wrap_declared (p_las ps) = false /\
+    (match p_data ps with [] => p_las3data ps | x => x end) <> [] /\
+    Forall (dom2_section ex_fhex (lines_keep ex_text)) (match p_data ps with [] => p_las3data ps | x => x end).
+Proof.
+  eexists. split; [vm_compute; reflexivity|].
+  split; [vm_compute; reflexivity|]. split; [vm_compute; reflexivity|]. split; [vm_compute; reflexivity|].
+  split; [vm_compute; discriminate|].
+  apply (dom2_sectionb_sound ex_fhex _ 2). vm_compute. reflexivity.
+Qed.
+Example C02_ex_read :
+  match read ex_fhex ex_fstr ex_numeq ex_numpy ex_text, read ex_fhex ex_fstr ex_numeq ex_normal ex_text with
+  | ROk l1, ROk l2 =>
+      l_data l1 = [ [CNum (s2l "1.0"); CNum (s2l "3.0")]; [CNum (s2l "2.0"); CNaN] ] /\
+      l_data l2 = l_data l1 /\ l_engine_numpy l1 = true /\ l_engine_numpy l2 = false
+  | _, _ => False
+  end.
+Proof. vm_compute. repeat split. Qed.
+
 Print Assumptions C02_numpy_spec.
 Print Assumptions C02_normal_spec.
 Print Assumptions C02_agree.
@@ -181,3 +250,4 @@ Print Assumptions C02_sow_current.
 Print Assumptions C02_sniff.
 Print Assumptions C02_read_one_data.
 Print Assumptions C02_read_engines_agree.
+Print Assumptions C02_read_agree.
